@@ -206,15 +206,20 @@ def evaluated_sets(ctx, rep):
         tag = runlevel.spec_tag(sp)
         case = {"kind": "filter_run", "spec": sp, "event_index": -1}
         half = Fraction(t["hdr"]["tol_mesh"]) / 2
-        lb, ub = t["hdr"]["lb"], t["hdr"]["ub"]
+        # the internal box from a FRESH transform of the original bounds (not whatever box the run handed to its filter)
+        lb, ub = t["hdr"].get("lb_ref") or t["hdr"]["lb"], t["hdr"].get("ub_ref") or t["hdr"]["ub"]
         infeasible = (t["final"].get("cons_unsat_at_calls") or t["final"].get("cons_at_calls")) if t.get("final") else None
-        groups, cur = {}, None
+        groups, cur, it = {}, None, 0
         for k, e in t["events"]:
             if k == "CALL" and "exc" not in e and e["rec"] and e["k"] > 0:
                 if e["phase"] == "init":
                     groups.setdefault("initial design", []).append(e)
                 elif e["phase"] == "poll" and cur is not None:
                     cur.append(e)
+                elif e["phase"] == "search":
+                    groups.setdefault(f"search steps of iteration {it}", []).append(e)
+            elif k == "ITER":
+                it += 1
             elif k == "DIRS":
                 cur = []
                 groups[f"poll step #{len(groups)}"] = cur
@@ -225,17 +230,22 @@ def evaluated_sets(ctx, rep):
                 continue
             nsets += 1
             keys = [tuple(round(Fraction(v) / half) for v in c["u"]) for c in calls]
-            if len(set(keys)) != len(keys):
-                rep.violation("distinct", "bads.py:" + ("_init_mesh_" if name == "initial design" else "_poll_step_"),
+            # (successive search steps of one iteration are separate filter calls: distinctness is per handed-on set, so not asked across them)
+            if len(set(keys)) != len(keys) and not name.startswith("search"):
+                rep.violation("distinct", "bads.py:" + _site(name),
                               f"{name}: two of the {len(calls)} evaluated points coincide within half the mesh tolerance; {tag}", case)
                 break
             if any(not (l <= v <= u) for c in calls for v, l, u in zip(c["u"], lb, ub)):
-                rep.violation("in_box", "bads.py:" + ("_init_mesh_" if name == "initial design" else "_poll_step_"), f"{name}: an evaluated point lies outside the internal box; {tag}", case)
+                rep.violation("in_box", "bads.py:" + _site(name), f"{name}: an evaluated point lies outside the internal box; {tag}", case)
                 break
             if infeasible is not None and any(infeasible[c["k"]] for c in calls if c["k"] < len(infeasible)):
-                rep.violation("feasible", "bads.py:" + ("_init_mesh_" if name == "initial design" else "_poll_step_"), f"{name}: an evaluated point violates the non-box constraint; {tag}", case)
+                rep.violation("feasible", "bads.py:" + _site(name), f"{name}: an evaluated point violates the non-box constraint; {tag}", case)
                 break
     return nsets
+
+
+def _site(name):
+    return "_init_mesh_" if name == "initial design" else "_search_step_" if name.startswith("search") else "_poll_step_"
 
 
 SITE_TWICE = "bads.py:evaluation-of-a-filtered-candidate"
